@@ -313,6 +313,12 @@ class SoftwareSwitchBase (object):
       self.send_error(type=OFPET_FLOW_MOD_FAILED, code=OFPFMFC_BAD_COMMAND,
                       ofp=ofp, connection=connection)
       return
+    if 88 + sum(len(a) for a in ofp.actions) > 0xffFF - 12:
+      # The flow stats entry (88 bytes + actions) for this would never fit
+      # in a stats reply
+      self.send_error(type=OFPET_BAD_ACTION, code=OFPBAC_TOO_MANY,
+                      ofp=ofp, connection=connection)
+      return
     handler(flow_mod=ofp, connection=connection, table=self.table)
 
     if ofp.buffer_id is not None:
